@@ -11,6 +11,9 @@ impl Formatter {
     // write!(f, ..): appends the formatted text (or fails without a partial-write guarantee)
     #[verifier::external_body]
     pub fn vx_write_fmt(&mut self, s: Str) -> (r: FmtResult) ensures r.is_ok() ==> final(self).written() == old(self).written().add(s@) { unimplemented!() }
+    // f.write_str(s): appends s (or fails without a partial-write guarantee)
+    #[verifier::external_body]
+    pub fn write_str(&mut self, s: &Str) -> (r: FmtResult) ensures r.is_ok() ==> final(self).written() == old(self).written().add(s@) { unimplemented!() }
 }
 impl Str {
     // write!(string, ..) never fails
